@@ -360,7 +360,16 @@ func init() {
 					npaths, bad := 0, ""
 					for _, p := range paths {
 						if p.exit {
-							continue // error returns abort the merge
+							// leaving the loop from inside an iteration is only legitimate as an error
+							// return: the loop must run until the document bound, or the entries of the
+							// remaining documents keep their zero value
+							last := p.blocks[len(p.blocks)-1]
+							if ret, ok := last.Instrs[len(last.Instrs)-1].(*ssa.Return); !ok || len(ret.Results) == 0 || isNilConst(resolveLoad(ret.Results[len(ret.Results)-1])) {
+								if len(p.blocks) >= 2 || !ok {
+									bad = "the per-document loop can be left before every document of the segment was handled (exit through " + blockList(p.blocks) + "): the table entries of the remaining documents keep the value 0, which is a valid document number"
+								}
+							}
+							continue
 						}
 						npaths++
 						var stores []*ssa.Store
@@ -855,6 +864,50 @@ func init() {
 			}
 			if !found {
 				r.undecided(key, fnName(fn), c.pos(fn.Pos()), "no `for cursor < len(block)` loop found")
+			}
+			// the same for every block-wise reader: a cursor that is the low bound of a window into
+			// a block decompressed per iteration of an outer loop starts at 0 for each block
+			for _, f := range c.fnsCalling("ZSTDDecompress") {
+				for _, dc := range callsOf(f, "ZSTDDecompress") {
+					var outer *ssa.BasicBlock
+					for b := dc.Block(); b != nil; b = b.Idom() {
+						if isLoopHeader(b) && loopBody(b)[dc.Block()] {
+							outer = b
+							break
+						}
+					}
+					if outer == nil {
+						continue
+					}
+					obody := loopBody(outer)
+					for b := range obody {
+						for _, ins := range b.Instrs {
+							sl, ok := ins.(*ssa.Slice)
+							if !ok || sl.Low == nil || !isByteSlice(sl.X.Type()) {
+								continue
+							}
+							phi, ok := sl.Low.(*ssa.Phi)
+							if !ok || !isLoopHeader(phi.Block()) || phi.Block() == outer || !obody[phi.Block()] {
+								continue
+							}
+							k2 := fnName(f) + "/window-cursor"
+							bad := ""
+							for i, e := range phi.Edges {
+								if phi.Block().Dominates(phi.Block().Preds[i]) {
+									continue
+								}
+								if k, isK := constInt(e); !isK || k != 0 {
+									bad = "the cursor that is the low bound of the window " + exprSig(sl, 0) + " enters the per-entry loop with " + exprSig(e, 0) + " instead of 0: entries of the next block are cut from the previous block's end offset"
+								}
+							}
+							if bad != "" {
+								r.bad(k2, fnName(f), c.pos(sl.Pos()), bad)
+							} else {
+								r.ok(k2, fnName(f), c.pos(sl.Pos()), "the window cursor starts at 0 for every block")
+							}
+						}
+					}
+				}
 			}
 		},
 	})
